@@ -107,9 +107,8 @@ func (g *GRU) Apply(inputs []tensor.Tensor) ([]tensor.Tensor, error) {
 
 	// Extract the shape of the hidden dimensions without the bidirectional dimension, as
 	// we do not support bidirectional GRU yet.
-	shapeWithoutBidir := prevH.Shape().Clone()[1:]
-
-	err = prevH.Reshape(shapeWithoutBidir...)
+	// The initial state is an input tensor (or a weight), so it may not be reshaped in place.
+	prevH, err = cloneWithoutFirstDim(prevH)
 	if err != nil {
 		return nil, err
 	}
